@@ -402,7 +402,19 @@ pub fn special(run: &mut Run, rng: &mut Rng, thorough: bool) {
     let mut s = Session::new(true, false, usize::MAX);
     let ok = s.wait_connected(4000);
     run.count(if ok { "dtlslive:established_reached" } else { "dtlslive:established_NOT_reached" });
-    for j in 0..per { let tgt = j % 2; let vs = variants(rng, if tgt == 1 { &to_server } else { &to_client }, 1); run_inject(run, &mut s, "established", tgt, &vs[0], true); }
+    // this session's OWN datagrams (other randoms and keys than the reference session): re-injected verbatim its protected records
+    // (client Finished, server CCS + Finished) authenticate under the session keys — the decrypt → `handle_decrypted_record(authenticated)`
+    // path incl. the duplicate-Finished resend runs; mutated they fail authentication. Hostile PLAINTEXT under the session keys is not generated.
+    let own: Vec<(usize, Vec<u8>)> = s.wire.lock().clone();
+    let own_to_server: Vec<Vec<u8>> = own.iter().filter(|(d, _)| *d == 1).map(|(_, p)| p.clone()).collect();
+    let own_to_client: Vec<Vec<u8>> = own.iter().filter(|(d, _)| *d == 0).map(|(_, p)| p.clone()).collect();
+    for j in 0..per {
+        let tgt = j % 2;
+        let pool = match (tgt, j % 4 < 2) { (1, true) => &own_to_server, (_, true) => &own_to_client, (1, false) => &to_server, _ => &to_client };
+        if pool.is_empty() { continue; }
+        let pkt = if j % 8 < 2 { rng.pick(pool).clone() } else { variants(rng, pool, 1)[0].clone() };
+        run_inject(run, &mut s, "established", tgt, &pkt, true);
+    }
     run.count(&format!("dtlslive:end_state:established:{}", s.state_text()));
     s.ends[0].t.close();
     s.step(2);
